@@ -119,7 +119,8 @@ def bounded(tier, seed, procs):
                    bound="depth <= 2, 14 maps, 9 environments", functions=["SubstitutionMapper.*", "make_subst_func", "substitute", "CachedSubstitutionMapper"])
     leaves = [x, y, a0, af, 2, -1]
     ex = list(leaves) + trees.depth1(trees.ARITH + trees.LOGIC + [p.Call, p.Subscript, p.Lookup, p.CommonSubexpression, p.CallWithKwargs], leaves[:5])
-    ex += trees.triples(trees.ARITH + [p.If, p.Comparison, p.Call, p.CallWithKwargs], [x, a0, y])[::3]
+    _tr = trees.triples(trees.ARITH + [p.If, p.Comparison, p.Call, p.CallWithKwargs], [x, a0, y])
+    ex += trees.thin(_tr, len(_tr) // 3, seed=1)
     ex += [p.Subscript(a, p.Sum((x, 0))), p.Subscript(p.Subscript(p.Variable("m"), x), y), p.Lookup(p.Subscript(p.Variable("objs"), x), "re"),
            p.Sum((a0, p.Product((x, a0)))), (x, a0), p.Call(trees.F, (a0, x))]
     ex = trees.dedup(ex)
